@@ -69,8 +69,49 @@ def tier_table(rep, rule, method, kind, k, extra, modes, call, spec, what, span_
                         out.append(((mode, "seam %d" % i), False, "rounding-exposed seam: the two boundaries can be equal in exact arithmetic but %s is not derivable from IEEE-754 monotonicity (the tier constructor would raise TextgridStateError on a well-formed input)" % text, None))
                     else:
                         out.append(((mode, "seam %d" % i), False, "", "float order %s not derivable although strictly ordered in exact arithmetic" % text))
+                from ..floatorder import positive_length_obligations
+
+                for i, ok, text, kind_ in positive_length_obligations(st, [e.items for e in got.value["entries"]], getattr(I, "path_facts", ()), getattr(I, "strict_facts", ()), [(x[0], x[1]) for x in ents]):
+                    if ok:
+                        out.append(((mode, "length"), True, "", None))
+                    else:
+                        out.append(((mode, "length %d" % i), False, "[kind %s] rounding-exposed empty interval: the written interval is positive in exact arithmetic but %s is not derivable -- its two ends are computed separately and can round to the same float (the tier constructor would raise TextgridStateError on a well-formed input)" % (kind_, text), None))
         return out
 
-    run_states(at, rows, tr)
+    import re as _re
+
+    class _Router:
+        """length rows are aggregated per kind of piece (one obligation per kind, so that a finding is one construct);
+        everything else goes to the table"""
+
+        def __init__(self):
+            self.kinds, self.checked, self.states = {}, 0, 0
+
+        def __setattr__(self, k, v):
+            if k == "states" and "kinds" in self.__dict__:
+                tr.states = v
+            object.__setattr__(self, k, v)
+
+        def row(self, case, mode, ok, detail="", undecided=None):
+            if isinstance(mode, tuple) and len(mode) == 2 and isinstance(mode[1], str) and mode[1].startswith("length"):
+                self.checked += 1
+                if not ok:
+                    m_ = _re.match(r"\[kind (.*?)\] ", detail)
+                    kind = _re.sub(r"\b([se])\d+\b", r"\1_i", m_.group(1) if m_ else detail)
+                    detail = detail[m_.end():] if m_ else detail
+                    k_ = self.kinds.setdefault(kind, [0, case, mode[0], detail])
+                    k_[0] += 1
+                return
+            tr.row(case, mode, ok, detail, undecided)
+    router = _Router()
+    router.states = tr.states
+    run_states(at, rows, router)
+    tr.states = max(tr.states, router.__dict__.get("states", 0))
     tr.done(what)
+    if seams:
+        if router.kinds:
+            for kind, (cnt, case, mode0, detail) in sorted(router.kinds.items()):
+                rep.refuted("R-G-length", fn.short, "piece %s" % kind, "%s (mode %s, first in case %s; %d abstract cases)" % (detail, mode0, case, cnt), loc=fn.loc)
+        elif router.checked:
+            rep.proved("R-G-length", fn.short, what, "%d written pieces with two computed ends have a derivably positive length" % router.checked, loc=fn.loc)
     return tr
